@@ -1,11 +1,13 @@
 package graphql
 
 import (
+	"crypto/sha256"
+	"encoding/hex"
 	"fmt"
-	"hash/fnv"
-	"strconv"
+	"strings"
 
 	"github.com/graphql-go/graphql/language/ast"
+	"github.com/graphql-go/graphql/language/printer"
 )
 
 // normalizeDocument walks the given operation in `doc`, replacing
@@ -127,16 +129,43 @@ func normalizeDocument(schema *Schema, doc *ast.Document, operationName string) 
 // AST kind only — so two normalize-equivalent queries hash the
 // same.
 func fingerprintDocument(doc *ast.Document, op *ast.OperationDefinition, operationName string) string {
-	h := fnv.New64a()
-	w := fingerprintWriter{h: h, fragments: collectFragmentDefs(doc)}
-	w.writeString("OP:")
-	w.writeString(string(op.Operation))
-	w.writeByte(0)
-	w.writeString(operationName)
-	w.writeByte(0)
-	w.writeVariableDefs(op.VariableDefinitions)
-	w.writeSelectionSet(op.SelectionSet)
-	return strconv.FormatUint(h.Sum64(), 16)
+	// The key is the printed text of the operation followed by every
+	// fragment it can reach, so everything that can change the response
+	// (directives, default values, aliases, surviving literals) takes
+	// part in it, and nothing depends on an ad-hoc encoding.
+	var b strings.Builder
+	b.WriteString(operationName)
+	b.WriteByte(0)
+	b.WriteString(fmt.Sprint(printer.Print(op)))
+	fragments := collectFragmentDefs(doc)
+	visited := map[string]bool{}
+	var reach func(sel *ast.SelectionSet)
+	reach = func(sel *ast.SelectionSet) {
+		if sel == nil {
+			return
+		}
+		for _, isel := range sel.Selections {
+			switch n := isel.(type) {
+			case *ast.Field:
+				reach(n.SelectionSet)
+			case *ast.InlineFragment:
+				reach(n.SelectionSet)
+			case *ast.FragmentSpread:
+				if n.Name == nil || visited[n.Name.Value] {
+					continue
+				}
+				visited[n.Name.Value] = true
+				if frag, ok := fragments[n.Name.Value]; ok {
+					b.WriteByte(0)
+					b.WriteString(fmt.Sprint(printer.Print(frag)))
+					reach(frag.SelectionSet)
+				}
+			}
+		}
+	}
+	reach(op.SelectionSet)
+	sum := sha256.Sum256([]byte(b.String()))
+	return hex.EncodeToString(sum[:])
 }
 
 func collectFragmentDefs(doc *ast.Document) map[string]*ast.FragmentDefinition {
@@ -147,173 +176,6 @@ func collectFragmentDefs(doc *ast.Document) map[string]*ast.FragmentDefinition {
 		}
 	}
 	return out
-}
-
-// fingerprintWriter walks the AST and feeds canonical bytes into the
-// hash. Separate from the normalizer's mutating walker because we
-// need a different traversal: we follow fragment spreads here (so
-// spread-reachable structure participates in the cache key), but we
-// don't rewrite anything.
-type fingerprintWriter struct {
-	h         interface{ Write([]byte) (int, error) }
-	fragments map[string]*ast.FragmentDefinition
-	visited   map[string]bool
-}
-
-func (w *fingerprintWriter) writeString(s string) { _, _ = w.h.Write([]byte(s)) }
-func (w *fingerprintWriter) writeByte(b byte)     { _, _ = w.h.Write([]byte{b}) }
-
-func (w *fingerprintWriter) writeVariableDefs(defs []*ast.VariableDefinition) {
-	w.writeString("VD(")
-	for _, d := range defs {
-		if d == nil || d.Variable == nil || d.Variable.Name == nil {
-			continue
-		}
-		w.writeString(d.Variable.Name.Value)
-		w.writeByte(':')
-		w.writeType(d.Type)
-		w.writeByte(',')
-	}
-	w.writeByte(')')
-}
-
-func (w *fingerprintWriter) writeType(t ast.Type) {
-	switch tt := t.(type) {
-	case *ast.NonNull:
-		w.writeType(tt.Type)
-		w.writeByte('!')
-	case *ast.List:
-		w.writeByte('[')
-		w.writeType(tt.Type)
-		w.writeByte(']')
-	case *ast.Named:
-		if tt != nil && tt.Name != nil {
-			w.writeString(tt.Name.Value)
-		}
-	}
-}
-
-func (w *fingerprintWriter) writeSelectionSet(sel *ast.SelectionSet) {
-	if sel == nil {
-		return
-	}
-	w.writeByte('{')
-	for _, isel := range sel.Selections {
-		switch s := isel.(type) {
-		case *ast.Field:
-			if s.Alias != nil {
-				w.writeString(s.Alias.Value)
-				w.writeByte(':')
-			}
-			if s.Name != nil {
-				w.writeString(s.Name.Value)
-			}
-			if len(s.Arguments) > 0 {
-				w.writeByte('(')
-				for _, a := range s.Arguments {
-					if a == nil || a.Name == nil {
-						continue
-					}
-					w.writeString(a.Name.Value)
-					w.writeByte('=')
-					w.writeValue(a.Value)
-					w.writeByte(',')
-				}
-				w.writeByte(')')
-			}
-			w.writeSelectionSet(s.SelectionSet)
-			w.writeByte(';')
-		case *ast.InlineFragment:
-			w.writeString("...")
-			if s.TypeCondition != nil && s.TypeCondition.Name != nil {
-				w.writeString(s.TypeCondition.Name.Value)
-			}
-			w.writeSelectionSet(s.SelectionSet)
-			w.writeByte(';')
-		case *ast.FragmentSpread:
-			w.writeString("...")
-			if s.Name != nil {
-				w.writeString(s.Name.Value)
-				w.writeByte(';')
-				w.writeFragmentBody(s.Name.Value)
-			}
-		}
-	}
-	w.writeByte('}')
-}
-
-func (w *fingerprintWriter) writeFragmentBody(name string) {
-	if w.visited == nil {
-		w.visited = map[string]bool{}
-	}
-	if w.visited[name] {
-		return
-	}
-	w.visited[name] = true
-	frag, ok := w.fragments[name]
-	if !ok {
-		return
-	}
-	w.writeByte('F')
-	if frag.TypeCondition != nil && frag.TypeCondition.Name != nil {
-		w.writeString(frag.TypeCondition.Name.Value)
-	}
-	w.writeSelectionSet(frag.SelectionSet)
-}
-
-// writeValue writes canonical bytes for an ast.Value. Variables are
-// hashed by name (so synth var names from normalization participate
-// in the key). Literals that survived normalization are hashed as
-// their kind+content — two identical un-extractable literals map to
-// the same fingerprint, two different ones don't.
-func (w *fingerprintWriter) writeValue(v ast.Value) {
-	switch n := v.(type) {
-	case nil:
-		w.writeByte('n')
-	case *ast.Variable:
-		w.writeByte('V')
-		if n.Name != nil {
-			w.writeString(n.Name.Value)
-		}
-	case *ast.IntValue:
-		w.writeByte('i')
-		w.writeString(n.Value)
-	case *ast.FloatValue:
-		w.writeByte('f')
-		w.writeString(n.Value)
-	case *ast.StringValue:
-		w.writeByte('s')
-		w.writeString(n.Value)
-	case *ast.BooleanValue:
-		w.writeByte('b')
-		if n.Value {
-			w.writeByte('1')
-		} else {
-			w.writeByte('0')
-		}
-	case *ast.EnumValue:
-		w.writeByte('e')
-		w.writeString(n.Value)
-	case *ast.ListValue:
-		w.writeByte('[')
-		for _, item := range n.Values {
-			w.writeValue(item)
-			w.writeByte(',')
-		}
-		w.writeByte(']')
-	case *ast.ObjectValue:
-		w.writeByte('{')
-		for _, f := range n.Fields {
-			if f == nil || f.Name == nil {
-				continue
-			}
-			w.writeString(f.Name.Value)
-			w.writeByte('=')
-			w.writeValue(f.Value)
-			w.writeByte(',')
-		}
-		w.writeByte('}')
-	}
 }
 
 // normCtx threads state across the recursive walk: schema for type
